@@ -59,13 +59,17 @@ META = {
         "from yaml/constructor.py), json.dumps, chr, int(str) (discharged by digit-set tests, also inter-procedurally through a parameter or "
         "a pure observation such as stream.peek()), file/URL access, Path stat, jinja2, HTMLParser.feed, Lexer, parselinenos, import_module, "
         "2-argument getattr (discharged for dataclass field names and for class-level method-name tables), next() (discharged for itertools "
-        "infinite iterators), urlparse/urlsplit, zlib/decode, foreign callables, and tuple-unpacking of split-derived sequences (length model "
+        "infinite iterators), urlparse/urlsplit, Sphinx's env.relfn2path() and download_reference(reftarget=..) on text that went through "
+        "percent-decoding (Path.resolve(): 'embedded null byte'; discharged by try/except ValueError, a dominating NUL test, or - for "
+        "download_reference - a successful relfn2path of the same text; text that never was percent-decoded is assumed NUL-free because "
+        "markdown-it's normalize rule replaces NUL by U+FFFD, verified in its source), zlib/decode, foreign callables, and tuple-unpacking of split-derived sequences (length model "
         "over maxsplit, separator tests, slices, padding, len() guards). An origin that only runs under a flag parameter which every "
         "package-internal call chain fixes to False is dead for entries outside that chain. "
         "R2 token_line() without default only where the token carries a map (the map propagation loop may live in a helper that "
         "_render_tokens always calls). R3 HTML attribute values are never None. R4 text re-entering nested_render_text that is not a "
         "substring of the current text (file content, Jinja output - also through a compiled-template helper) sits behind a paired "
-        "in-progress guard (try/finally or a @contextmanager that brackets its yield). R5 every while loop outside the option tokenizer has "
+        "in-progress guard (try/finally or a @contextmanager that brackets its yield); the guard of included files must be keyed by an "
+        "absolute normalised path (normpath/abspath/realpath/resolve). R5 every while loop outside the option tokenizer has "
         "a recognised progress variant (shrinking list, bounded counter, find-then-slice, stream read / flag from a read, counter in the "
         "candidate, tree descent, tree worklist, popping test); a cyclic path that provably changes nothing the tests read is a violation. "
         "R6 YAML values and values read out of them are narrowed, validated as mappings, or used inside a catching try. R7 a docutils node "
@@ -73,13 +77,20 @@ META = {
         "test. R9 attributes MyST adds to the docutils document are read plainly only where a store/hasattr dominates (in the function or at "
         "every call site) or every parse path guarantees the store. R10 a config field that a markdown-it plugin divides by excludes 0. "
         "R11 config-supplied rule names reach md.disable() only without the block parser's catch-all rule. R12 attributes read from a caught "
-        "exception exist on every class the handler catches. R13 a mapping is not subscripted with its loop key after that key was re-bound."
+        "exception exist on every class the handler catches. R13 a mapping is not subscripted with its loop key after that key was re-bound. R14 every value stored into the renderer's heading "
+        "offset is non-negative (constants, restored values, parameters traced to their call sites, include options traced to their docutils "
+        "converter), because update_section_level_state takes max() over the levels below the heading's. R15 a value read from "
+        "document.nameids (None for duplicated names, confirmed in docutils/nodes.py) is None-tested before it keys document.ids."
     ),
     "not_decided": (
         "Implicit AttributeError/KeyError/IndexError/TypeError of arbitrary expressions (only the targeted sub-rules R3, R6, R8, R9, R12, R13); "
         "exceptions inside third-party directive/role bodies and inside docutils/Sphinx transforms; termination and totality of markdown-it "
         "itself beyond the catch-all block rule (R11); value-dependent builtins such as max() of an empty sequence or pop() of an empty list; "
-        "None values placed into node lists (C14.R5); loops whose progress goes through helper functions or aliases (ANALYSIS-ERROR)."
+        "None values placed into node lists (C14.R5); loops whose progress goes through helper functions or aliases (ANALYSIS-ERROR); "
+        "recursion DEPTH on pathologically nested input - a runtime quantity: PyYAML on front matter with thousands of nested brackets, "
+        "Element.deepcopy/render in html_to_nodes on ~1200 nested inline tags, deeply nested block quotes/lists in the renderer - can end in "
+        "RecursionError although every recursion is on a strictly smaller sub-structure (R4 only decides re-entry on text that is NOT a "
+        "sub-structure); NUL bytes introduced by other means than the catalogued percent-decoders."
     ),
     "trusted_base": [
         "CPython ast",
@@ -504,8 +515,8 @@ def r4_reentry_guards(corpus: Corpus, rep: Report, tier: str):
                 "C01.R4",
                 f"{fi.fq}|cycle-guard key of included files is not a normalised path",
                 weak[0],
-                f"the in-progress test `{weak[1]}` identifies the included file by `{weak[2]}`, which is not passed through normpath/abspath/realpath/resolve(): the same file reached "
-                "through a path with a redundant `sub/..` gets a different (ever longer) key at every level, the guard never fires and a self-including file recurses until RecursionError",
+                f"the in-progress test `{weak[1]}` identifies the included file by `{weak[2]}`, which is not made absolute and normalised (normpath/abspath/realpath/resolve()): the same file reached "
+                "through another spelling of its path (a redundant `sub/..`, another base directory) gets a different key at every level, the guard never fires and a self-including file recurses until RecursionError",
             )
         elif guard is True:
             rep.ok("C01.R4", k, site, f"foreign text ({origin}) behind a paired in-progress guard" + (" keyed by a normalised path" if origin.startswith("file content") else ""))
@@ -2734,12 +2745,22 @@ def r15_registry_none(corpus: Corpus, rep: Report, tier: str):
             continue
         cfg = None
         for src in fi.local_nodes():
-            if not _registry_read(src, "nameids"):
+            loop_holder = None
+            if isinstance(src, ast.For) and isinstance(src.iter, ast.Call) and isinstance(src.iter.func, ast.Attribute) and (dotted(src.iter.func.value) or "").split(".")[-1] == "nameids":
+                if src.iter.func.attr == "items" and isinstance(src.target, ast.Tuple) and len(src.target.elts) == 2 and isinstance(src.target.elts[1], ast.Name):
+                    loop_holder = src.target.elts[1].id
+                elif src.iter.func.attr == "values" and isinstance(src.target, ast.Name):
+                    loop_holder = src.target.id
+            if loop_holder is None and not _registry_read(src, "nameids"):
                 continue
             p_ = parent(src)
             holders: set[str] = set()
             direct_uses: list[ast.AST] = []
-            if isinstance(p_, ast.Assign) and p_.value is src and len(p_.targets) == 1 and isinstance(p_.targets[0], ast.Name):
+            if loop_holder is not None:
+                holders.add(loop_holder)
+                def_stmt = src
+                src = src.iter
+            elif isinstance(p_, ast.Assign) and p_.value is src and len(p_.targets) == 1 and isinstance(p_.targets[0], ast.Name):
                 holders.add(p_.targets[0].id)
                 def_stmt = p_
             elif isinstance(p_, ast.Subscript) and p_.slice is src and (dotted(p_.value) or "").split(".")[-1] == "ids":
